@@ -112,6 +112,8 @@ def monotonicity_oracle(ctx, named_calc):
             d['preT2'] = d['preT2'] * 1e9   # regime of the large-omega2 algorithm
         L0 = lij(calc, d)
         scale = max(abs(L0[0]).max(), abs(L0[1]).max(), 1e-300)
+        # exchange rates many decades above the vacancy rates: the result carries roundoff proportional to that ratio (finding F31)
+        ratio2 = float(np.max(d['preT2'] * np.exp(-d['eneT2'])) / np.min(d['preT0'] * np.exp(-d['eneT0']))) if large else 0.0
         classes = [('eneT0', j) for j in range(len(d['eneT0']))] + [('eneT1', j) for j in range(len(d['eneT1']))] + \
                   [('eneT2', j) for j in range(len(d['eneT2']))]
         if ctx.quick and len(classes) > 6:
@@ -143,7 +145,7 @@ def monotonicity_oracle(ctx, named_calc):
                 w = np.linalg.eigvalsh(0.5 * (diff + diff.T))
                 cond = math.exp(min(amt, 40.0)) if which != 'eneT2' else 1.0     # conditioning of a very fast omega0/omega1 class
                 # exchange rates 1e9 times the others: results carry roundoff of a few 1e-17 x that ratio (finding F31)
-                if w.min() < -(1e-7 + 1e-15 * cond + (1e-6 if large else 0.0)) * sc:
+                if w.min() < -(1e-7 + 1e-15 * cond + 1e-14 * ratio2) * sc:
                     os_tag = 'originstates' if len(calc.OSindices) > 0 else 'no-originstates'
                     ctx.violation('vacancy-decreases:%s:%s:%s:%s' % (lab, os_tag, which, name),
                                   '%s decreased (min eigenvalue of change %.3g, scale %.3g) when %s[%d] was lowered by %g on %s'
